@@ -43,6 +43,10 @@ type RunRes struct {
 	FPanic string   `json:"fpanic,omitempty"`
 	FMs    []MatchJ `json:"fms,omitempty"`
 	FRan   bool     `json:"fran,omitempty"`
+	// two filename arguments holding the same bytes: the result must be the single-file result twice
+	F2Panic string   `json:"f2panic,omitempty"`
+	F2Ms    []MatchJ `json:"f2ms,omitempty"`
+	F2Ran   bool     `json:"f2ran,omitempty"`
 }
 
 type Resp struct {
@@ -216,6 +220,13 @@ func handleRun(req *Req) *Resp {
 				rr.FRan = true
 				rr.FPanic = p
 				rr.FMs = projMatches(ms)
+				fn2 := tmpdir + "/g.txt"
+				if e2 := os.WriteFile(fn2, []byte(text), 0o644); e2 == nil && p == "" {
+					ms2, p2, _ := runFilesSafe(v, []string{fn, fn2}, engine.NOTHING)
+					rr.F2Ran = true
+					rr.F2Panic = p2
+					rr.F2Ms = projMatches(ms2)
+				}
 			}
 		}
 		resp.Runs = append(resp.Runs, rr)
